@@ -46,6 +46,8 @@ def run(ck):
     d = vlib.run_driver(dln, ["run", ck.tier, ck.seed, tl], timeout=600)
     if d["rc"] != 0:
         raise vlib.InfraError("driver failed rc=%s %s" % (d["rc"], d["err"][-1500:]))
+    if '"loopNormAbsent"' in open(tl).readline():
+        ck.ev.notes.append("MODEL-DRIFT: the loop algorithms (polygon.h / linkedGeo.h) are gone; the model -> code replay of H3LoopNorm was skipped")
     ck.trace("loopnorm-impl", "Trace_LoopNorm", "Trace_LoopNorm_impl.cfg", tl, nchunks=8, drift=True,
              what="model -> code: every rectangle loop of the 10-degree grid as GeoLoop and as LinkedGeoLoop through the real bboxFrom*, "
                   "pointInside* (18 test points), isClockwise* (loop and reverse): the code does what the transcription does")
